@@ -129,7 +129,12 @@ def main(argv):
             return 1 if acc.viol else 0
         if '--replay' in argv:
             return do_replay(prop_id, argv[argv.index('--replay') + 1])
-        return run_check(prop_id, tier)
+        rc = run_check(prop_id, tier)
+        if runner.FAILFAST:
+            sys.stdout.flush()
+            sys.stderr.flush()
+            os._exit(rc)
+        return rc
     except runner.HarnessError as e:
         print('HARNESS-ERROR: %s' % e)
         return 2
